@@ -132,7 +132,7 @@ func execDelay(t *testing.T, tr *vrt.Tracer, sc delayScenario, ex *vrt.Explorer,
 			}
 		}
 		if !dead {
-			emit(vrt.M{"ev": "rest", "sched": ex.Trail()})
+			emit(vrt.M{"ev": "rest", "sched": ex.Trail(), "fine": vrt.IsFine()})
 		}
 	}
 	vrt.Uninstall()
@@ -163,6 +163,7 @@ func TestVerifDelayFilterSync(t *testing.T) {
 	defer tr.Close()
 	budget := vrt.EnvInt("VERIF_BUDGET", 300)
 	nrand := vrt.EnvInt("VERIF_RANDOM", 200)
+	nfine := vrt.EnvInt("VERIF_FINE", nrand/2)
 	rng := rand.New(rand.NewSource(vrt.Seed())) //nolint:gosec
 	stats := map[string][3]int{}
 	vrt.ReadScenarios(func(line []byte) {
@@ -189,6 +190,14 @@ func TestVerifDelayFilterSync(t *testing.T) {
 				execDelay(t, tr, sc, rex, rng)
 			}
 		}
+		vrt.SetFine(true)
+		fex := &vrt.Explorer{Random: true, Rng: rng}
+		for k := 0; k < nfine; k++ {
+			fex.Begin()
+			execDelay(t, tr, sc, fex, rng)
+			nr++
+		}
+		vrt.SetFine(false)
 		e := 0
 		if exhausted {
 			e = 1
